@@ -20,6 +20,7 @@ Constraint chains are evaluated left-to-right with fail-fast semantics.
 Conflict detection identifies incompatible constraint combinations.
 """
 
+import math
 import re
 from abc import ABC, abstractmethod
 from dataclasses import dataclass, field
@@ -475,8 +476,8 @@ class RangeConstraint(Constraint):
                 ],
             )
 
-        # Check bounds (inclusive)
-        if numeric_value < self.min_value or numeric_value > self.max_value:
+        # Check bounds (inclusive); NaN compares false with everything, so it must be rejected explicitly
+        if math.isnan(numeric_value) or numeric_value < self.min_value or numeric_value > self.max_value:
             return ValidationResult(
                 valid=False,
                 errors=[
